@@ -151,6 +151,7 @@ class CONSEngine(Engine):
                 def done(result, rec=rec):
                     rec["done"] = self.evseq
                     rec["ok"] = not hasattr(result, "getTraceback")  # Failure or value
+                    rec["exc"] = None if rec["ok"] else result.value
                     return result
 
                 d.addBoth(done)
@@ -1233,8 +1234,8 @@ class CONSEngine(Engine):
             k += 1
         else:
             return  # no attempt of this run known to have succeeded before the chain
-        if k == 0:
-            return
+        if k == 0 or mine[-1].get("exc") is not f.value:
+            return  # the run did not end with the failure of its last fetch-path attempt (e.g. a commit the coordinator rejected for good)
         # (afkak counts the successful request that precedes the failures as the first attempt of the new series: after a success the
         # unchanged tree gives up at the (N-1)th consecutive failure, which C14's "no more than N" allows; fewer than that is a budget
         # that was not reset)
